@@ -388,6 +388,17 @@ void run_exec(const Scenario& sc, const std::vector<Switch>& sched_in, vh::Rng* 
     for (int t = 0; t < n; ++t)
       if (!sched.finished(t)) alive |= 1U << t;
     steps.push_back({cur, alive});
+    if (std::getenv("OLC_SIGLOG") != nullptr) {
+      // ground truth for spec/OlcArt.tla: the scheduling point about to be executed
+      const auto& pd = sched.pending(cur);
+      static const char* names[] = {"L_LOAD", "L_CHECK", "L_CAS", "L_UNLOCK", "L_OBSOLETE", "F_LOAD", "F_STORE", "SPIN"};
+      const char* kn = pd.pk == vs::pkind::HOOK && static_cast<int>(pd.kind) < 8 ? names[static_cast<int>(pd.kind)]
+                       : pd.pk == vs::pkind::USER ? "START" : "?";
+      Block* b = pd.addr ? ex.find(pd.addr) : nullptr;
+      ex.log("{\"e\":\"step\",\"t\":" + std::to_string(cur + 1) + ",\"k\":\"" + kn + "\",\"b\":" +
+             std::to_string(b ? b->id : 0) + ",\"off\":" +
+             std::to_string(b ? static_cast<long>(reinterpret_cast<std::uintptr_t>(pd.addr) - b->base) : 0) + "}");
+    }
     sched.step(cur);
     ++pos;
   }
